@@ -63,11 +63,27 @@ Definition line_crlf (l : bytes) : option (option bytes * bytes) :=
   match to_lf l with
   | None => None                                   (* no LF at all: input ends inside the line *)
   | Some (before, rest) =>
-      match rev before with
-      | x0d :: rb => Some (Some (rev rb), rest)
+      match frev before with
+      | x0d :: rb => Some (Some (frev rb), rest)
       | _ => Some (None, rest)                     (* bare LF *)
       end
   end.
+
+(* the same with List.rev (frev is only there for linear-time extraction) *)
+Lemma line_crlf_unfold l : line_crlf l =
+  match to_lf l with
+  | None => None
+  | Some (before, rest) =>
+      match rev before with
+      | x0d :: rb => Some (Some (rev rb), rest)
+      | _ => Some (None, rest)
+      end
+  end.
+Proof.
+  unfold line_crlf. destruct (to_lf l) as [[bf r]|]; [|reflexivity].
+  rewrite frev_eq. destruct (rev bf) as [|x rb]; [reflexivity|].
+  destruct x; try reflexivity. rewrite frev_eq. reflexivity.
+Qed.
 
 Fixpoint take_while (p : byte -> bool) (l : bytes) : bytes * bytes :=
   match l with
